@@ -22,6 +22,8 @@ def run(ctx):
     with Pool(seeds=hash_seeds(ctx), init="engines.gwork:init", recycle=20000) as pool:
         outs = pool.map("engines.gwork:eval_ids", items)
         marked = pool.map("engines.gwork:eval_marked", [{}])[0]
+        from .twork import run_family
+        tviol, tstats = run_family(pool, ctx)
     by_id, by_raw = {}, {}
     for it, o in zip(items, outs):
         if "error" in o:
@@ -52,13 +54,18 @@ def run(ctx):
             res.violation(f"collision:{'full' if what == 'id' else 'raw'}:marked-parameter",
                           f"(embedder, leaf value, producing task) {a} and {b} share the identifier {ident[:16]} (histories {sigs[a]['hist']}, {sigs[b]['hist']})",
                           {"marked": [sigs[a], sigs[b]]})
+    for kind, key, msg, payload in tviol:
+        if kind in ("collision", "error"):
+            res.violation(key, msg, payload)
     res.coverage = {
+        "two_threads_family": tstats,
         "marked_parameter_family": {"cases": len(marked), "distinct_signatures": len({r.get("sig") for r in marked if "sig" in r})},
-        "evaluations": len(descs) + len(marked),
+        "evaluations": len(descs) + len(marked) + tstats["executions"],
         "distinct_nontrivial": len(by_id),
         "rule": "every description within (N, k) of the default graphs and seeds (value alphabets chosen so that concatenations, container "
                 "boundaries, key/value moves and prefix-related names collide if the encoding lets them), plus the family 'task output = own "
-                "parameter of the producing task, marked after it was sealed and identified' (9 embedders x 2 values x 5 producers x 4 request histories); real identifiers grouped, every "
+                "parameter of the producing task, marked after it was sealed and identified' (9 embedders x 2 values x 5 producers x 4 request histories) and the family 'two user threads' (Engine T: identifiers observed under every schedule with <= 1 preemption of two real "
+                "threads working on configurations that share sub-configurations, for two contents of each shape); real identifiers grouped, every "
                 "group must carry exactly one canonical signature (full and raw identifiers separately); distinct_nontrivial = distinct identifiers",
         "samples": clip_samples([descs[3], descs[len(descs) // 2]]),
         "exhaustive": not capped,
@@ -93,6 +100,9 @@ def family(A, B):
 def replay(ctx, payload):
     from . import gwork, refmodel as R
     gwork.init()
+    if "threads" in payload:
+        from . import twork
+        return twork.replay(payload)
     if "marked" in payload:
         print(json.dumps(payload["marked"], indent=1))
         for r in gwork.eval_marked({}):
